@@ -340,7 +340,27 @@ Definition l_strip (gl : list grouping) (st : lstate) : lstate :=
   let '(g3, _) := pop_grouping st2 gl2 in let st3 := l_clear_subs g3 st2 in
   l_clear_regions st3.
 
+(* Record.create_candidate_clusters: create_candidates_from_protoclusters CONSTRUCTS candidates one after the other
+   (`built`, in construction order; every CandidateCluster constructor makes the new candidate the parent of its
+   members, also of a candidate that is afterwards dropped as redundant or replaced by a promoted one), asserts that
+   every protocluster is a member of a candidate it returns, and - repair e5074b2a - finally points every protocluster
+   at a RETURNED candidate, in the order of the returned (sorted) list: `for candidate in candidates: for proto in
+   candidate.protoclusters: proto.parent = candidate`.  The returned candidates are then handed to
+   add_candidate_cluster in that order.  Which candidates are built and which are returned is formation's business
+   (property C05) and an argument here; `relink = false` is the function as it was before the repair. *)
+Definition l_cover (built returned : list (Z * list Z)) : bool :=
+  forallb (fun b => forallb (fun x => existsb (fun r => existsb (Z.eqb x) (snd r)) returned) (snd b)) built.
+Definition l_point (m : lmap) (c : Z * list Z) : lmap := lset_all (snd c) (Some (fst c)) m.
+Definition l_form (relink : bool) (built returned : list (Z * list Z)) (st : lstate) : lstate :=
+  if l_cover built returned then
+    let constructed := fold_left l_point built (l_pparent st) in
+    mkLS (l_protos st) (rev returned ++ l_cands st) (l_subs st) (l_regions st)
+         (if relink then fold_left l_point returned constructed else constructed)
+         (l_aparent st) (l_cdsreg st) (l_next st)
+  else st.                                      (* AssertionError: such histories are not covered *)
+
 Inductive lop :=
+| LFormCands (built returned : list (Z * list Z))
 | LAddProto (p : Z)
 | LAddCand (c : Z) (children : list Z)       (* CandidateCluster(..., children) followed by add_candidate_cluster *)
 | LAddSub (s : Z)
@@ -355,6 +375,7 @@ Inductive lop :=
 
 Definition l_apply (st : lstate) (o : lop) : lstate :=
   match o with
+  | LFormCands built returned => l_form true built returned st
   | LAddProto p => mkLS (p :: l_protos st) (l_cands st) (l_subs st) (l_regions st) (l_pparent st) (l_aparent st) (l_cdsreg st) (l_next st)
   | LAddCand c ch => mkLS (l_protos st) ((c, ch) :: l_cands st) (l_subs st) (l_regions st)
                           (lset_all ch (Some c) (l_pparent st)) (l_aparent st) (l_cdsreg st) (l_next st)
@@ -371,6 +392,7 @@ Definition l_apply (st : lstate) (o : lop) : lstate :=
   end.
 
 Definition dGrouping : dec grouping := dList (dPair (dList dZ) (dList dZ)).
+Definition dCands : dec (list (Z * list Z)) := dList (dPair dZ (dList dZ)).
 Definition dLop : dec lop := fun l =>
   match l with
   | 0 :: p :: r => Some (LAddProto p, r)
@@ -383,6 +405,7 @@ Definition dLop : dec lop := fun l =>
   | 7 :: r => match dGrouping r with Some (g, r') => Some (LClearProtos g, r') | None => None end
   | 8 :: c :: r => match dList dZ r with Some (ch, r') => Some (LReAddCand c ch, r') | None => None end
   | 9 :: r => match dList dGrouping r with Some (gl, r') => Some (LStrip gl, r') | None => None end
+  | 10 :: r => match dPair dCands dCands r with Some ((b, rt), r') => Some (LFormCands b rt, r') | None => None end
   | _ => None
   end.
 
